@@ -4,6 +4,8 @@ R1  functions reachable from the processing path keep no state outside the chunk
     no global/nonlocal, no write to module/class/function objects, no mutable default, no memo
     decorator, no read of a module-level object that anything writes (the parameter dictionary is
     covered by C12-R1: read once, as the argument of a deep copy).
+R3  no function on the processing path flips an interpreter- or library-wide switch (warning filters, NumPy / pandas /
+    scikit-learn options, locale, environment, logger levels, ...).
 R2  helpers are pure: no public helper mutates an argument it does not own; chunk methods store only
     to their own instance or to fresh local objects.
 """
@@ -16,6 +18,7 @@ LEVEL = 'other'
 def check(ctx):
     confinement.module_state(ctx, 'C13-R1')
     global_read_discipline(ctx, 'C13-R1')
+    confinement.process_wide_switches(ctx, 'C13-R3')
     determinism.explicit_random_state(ctx, 'C13-R1')
     determinism.rng_confinement(ctx, 'C13-R1')
     ownership.helpers_pure(ctx, 'C13-R2')
